@@ -416,18 +416,24 @@ def build_roland_image_ex(model):
             raise ValueError("too many %s" % lvl)
 
     # referential sanity (a -1 reference means "none")
+    # a None entry of volumes / performances / patches / partials is an EMPTY SLOT (all-zero directory and parameter record):
+    # the directories of a used disk have holes, the ID-area counts say how many entries exist, not which slots they occupy
     for v in tables["volumes"]:
-        _check_refs(v.get("performances", []), MAX_ENTRIES["performances"],
-                    "volume %r" % v["name"])
+        if v is not None:
+            _check_refs(v.get("performances", []), MAX_ENTRIES["performances"],
+                        "volume %r" % v["name"])
     for p in tables["performances"]:
-        _check_refs(p.get("patches", []), MAX_ENTRIES["patches"],
-                    "performance %r" % p["name"])
+        if p is not None:
+            _check_refs(p.get("patches", []), MAX_ENTRIES["patches"],
+                        "performance %r" % p["name"])
     for p in tables["patches"]:
-        _check_refs(p.get("partials", []), MAX_ENTRIES["partials"],
-                    "patch %r" % p["name"])
+        if p is not None:
+            _check_refs(p.get("partials", []), MAX_ENTRIES["partials"],
+                        "patch %r" % p["name"])
     for p in tables["partials"]:
-        _check_refs(p.get("samples", []), MAX_ENTRIES["samples"],
-                    "partial %r" % p["name"])
+        if p is not None:
+            _check_refs(p.get("samples", []), MAX_ENTRIES["samples"],
+                        "partial %r" % p["name"])
 
     plans, claimed = _plan_chains(tables["samples"],
                                   bool(model.get("allow_cluster_overlap")))
@@ -465,7 +471,7 @@ def build_roland_image_ex(model):
         layout[lvl] = []
 
     # ---- ID area
-    counts = {lvl: len(tables[lvl]) for lvl in LEVELS}
+    counts = {lvl: len([e for e in tables[lvl] if e is not None]) for lvl in LEVELS}
     counts.update(model.get("counts", {}))
     ida = bytearray(ID_AREA_SIZE)
     struct.pack_into("<I", ida, 0, int(model.get("revision", 0x100)))
@@ -519,6 +525,9 @@ def build_roland_image_ex(model):
     for lvl in ("volumes", "performances", "patches", "partials"):
         n = len(tables[lvl])
         for i, entry in enumerate(tables[lvl]):
+            if entry is None:
+                layout[lvl].append({"index": i, "empty": True})
+                continue
             place(lvl, i,
                   _dir_entry(entry["name"], FILE_TYPE[lvl], i, n,
                              fat_version),
